@@ -6,6 +6,7 @@ import Norad.Lemmas.C05
 import Norad.Lemmas.C05Bridge
 import Norad.Lemmas.C05Doc
 import Norad.Lemmas.C05Order
+import Norad.Lemmas.C05Mixed
 import Norad.Props.C02
 /-!
 # C05 — files are UFO 3 as an independent implementation reads and writes it
@@ -409,6 +410,26 @@ theorem norad_parser_reads_spec_document_any_order {F : Fmt} {rd : Str → Optio
     ∃ g, parseGlif rd evs = .ok g ∧ loadObjectLibs (glyphOf nc libD d) = .ok g :=
   parse_any_order hF libD d hd hi pro tr minor hp hol hperm
 
+/-- **documents that MIX spelt-out and omitted defaults**: `specWriteWith ch rdr d` is `specWrite` with an independent
+choice `ch` at every attribute SITE whose value is the specification's default — `type` of each off-curve point and
+`smooth` of each point that is not smooth (`ch.point ci pi`), each of the six coefficients of each component (`ch.comp ki`)
+and of the image (`ch.image`), `width` / `height` of the advance — whether the attribute is written or left out (a value
+that is not the default is always written).  All-true is `specWrite`, all-false the minimal spelling; every mixture in
+between parses to the same glyph.  Same hypotheses as `norad_parser_reads_spec_document`. -/
+theorem norad_parser_reads_mixed_document {F : Fmt} {rd : Str → Option Nat} {rdr : Render} {nc : Color → Color}
+    {ok : Nat → Prop} (hF : Codec F rd nc ok) (hP : ParseCodec rd rdr ok) (ch : Choice) (rl : String → LibV) (libD : Dict)
+    (d : GlyphD) (hd : DescLegal ok nc d) (hl : ∀ t, d.lib = some t → rl t = .dict libD) :
+    parseGlif rd (eventsOf rl (specWriteWith ch rdr d)) = loadObjectLibs (glyphOf nc libD d) :=
+  parse_specWriteWith hF hP ch rl libD d hd hl
+
+-- OPEN (not reached), kept as a statement: format 1.
+--   norad_parser_reads_spec_document_v1 : for a description without identifiers, anchors, guidelines, image and note
+--   (what a format-1 glif can hold), written with `format="1"`, `parseGlif` returns the described glyph with the single
+--   named `move` contours turned into anchors.  The glif builder's `legal_accepted_v1` (`renderV1`, `interpV1`,
+--   `LegalItemsV1`) is the engine; missing here: a format-1 specification writer, `LegalItemsV1` derived from `DescLegal`
+--   plus the format-1 restrictions, and `interpV1` of the described document in closed form.  C05 is about UFO 3, whose
+--   glifs are format 2; format-1 input is C04/C14 territory.
+
 /-! non-vacuity of the two codec hypotheses (the glif builder's `F0`, `R0`, `nc0`, `ok0`: every number is 0) -/
 
 def lex0 : Lex :=
@@ -491,6 +512,12 @@ example : ∃ g, parseGlif R0 (render F0 { prolog := [.decl], name := L d1.name,
 example : (match loadObjectLibs (glyphOf nc0 libD1 d1) with
     | .ok g => g.anchors.all (fun a => a.lib.isSome) && g.lib.isEmpty
     | .error _ => false) = true := by decide +kernel
+
+-- a mixed document: defaults spelt out at even sites, omitted at odd ones
+example : parseGlif R0 (eventsOf (fun _ => .bad)
+      (specWriteWith ⟨true, false, fun k => k == .xScale, fun ci pi => ⟨ci % 2 == 0, pi % 2 == 1⟩, fun ki k => (ki % 2 == 0) && k != .yOffset⟩
+        render0 d0)) = loadObjectLibs (glyphOf nc0 [] d0) :=
+  norad_parser_reads_mixed_document codec0 parseCodec0 _ (fun _ => .bad) [] d0 descLegal_d0 (by intro t ht; cases ht)
 
 -- the element theorems apply (their codec hypothesis is satisfiable)
 example := norad_parser_reads_spec_writer parseCodec0 []
